@@ -35,12 +35,13 @@ def classes(R):
     cs = ["ok0", "okslow", "okfrag", "okdrop", "connref", "dropref", "exh", "fragexh", "senderr", "recverr", "badlate_ok", "badlate_exh", "baddup_exh"]
     cs += [f"ok{k}" for k in range(1, R + 1)]
     cs += [f"rej{j}" for j in range(0, R + 1)]
+    cs += ["rej0u"]         # rejected at once with an exception code outside the Modbus table (9)
     return cs
 
 
 # classes whose script length per request does not depend on how many transmissions the library makes (needed when one register
 # carries the scripts of several requests one after the other)
-SAME_OK = {"ok0", "okslow", "okfrag", "exh", "fragexh", "rej0"} | {f"ok{k}" for k in range(1, 6)} | {f"rej{k}" for k in range(1, 6)}
+SAME_OK = {"ok0", "okslow", "okfrag", "exh", "fragexh", "rej0", "rej0u"} | {f"ok{k}" for k in range(1, 6)} | {f"rej{k}" for k in range(1, 6)}
 
 
 def script_for(cls, R):
@@ -63,7 +64,7 @@ def script_for(cls, R):
     if cls == "fragexh":           # every attempt is answered at once by a lone first fragment: each attempt times out after T
         return ["frag1"] * (R + 1)
     if cls.startswith("rej"):
-        return ["drop"] * int(cls[3:]) + [["exc", 2]]
+        return ["drop"] * int(cls[3:].rstrip("u")) + [["exc", 9 if cls.endswith("u") else 2]]
     if cls == "badlate_ok":        # corrupted answer half a timeout late, then the retransmission answered 0.8 T late
         return ["badsumlate", ["delay", "0.8T"]]
     if cls == "badlate_exh":       # corrupted answer half a timeout late, then silence
@@ -162,7 +163,7 @@ def check_history(sc, run, part: Part):
             elif cls == "okdrop":
                 part.count("prefix_idle_connection_dropped")
         elif cls.startswith("rej"):
-            j = int(cls[3:])
+            j = int(cls[3:].rstrip("u"))
             if rec["outcome"] != "RequestRejectedException" or not spaced(txt, rec["t0"], T, j + 1):
                 out.append((f"C05/{tr}/rejection-on-kth-transmission",
                             f"{ctx}: outcome {rec['outcome']} with {len(txt)} transmissions, expected rejection on #{j + 1}"))
